@@ -74,7 +74,7 @@ pub fn run(prop: &str, world: &World, sc: &Scenario, ctx: &mut RunCtx) {
         let prior_balances = if prop == "C27" { balances_of(vm.as_ref()) } else { Default::default() };
         let tx_assets: Vec<fuel_types::AssetId> = {
             let mut v: Vec<_> = spec.coins.iter().map(|c| asset(c.0 % NA as u8)).collect();
-            v.push(fuel_types::AssetId::BASE);
+            v.push(super::world::base_asset());
             v.sort();
             v.dedup();
             v
